@@ -211,6 +211,41 @@ func (m *svMod) op(e *lib.Env, st Step) (string, lib.Outcome) {
 		out := e.Deliver(&servicetypes.MsgRespondService{RequestId: rq.id.String(), Provider: rq.provider.String(),
 			Result: `{"code":200,"message":""}`, Output: `{"header":{},"body":{}}`})
 		return term, out
+	// operations executed under both sets but not modelled (term SvOther): only the abort clause applies
+	case "update_binding": // adds to the deposit, changes the QoS
+		prov := e.Actors[1+int(n(0).Int64())%2]
+		return "SvOther", e.Deliver(&servicetypes.MsgUpdateServiceBinding{ServiceName: svName, Provider: prov.String(),
+			Deposit: sdk.NewCoins(sdk.NewCoin("stake", n(1))), QoS: n(2).Uint64(), Owner: prov.String()})
+	case "disable":
+		prov := e.Actors[1+int(n(0).Int64())%2]
+		return "SvOther", e.Deliver(&servicetypes.MsgDisableServiceBinding{ServiceName: svName, Provider: prov.String(), Owner: prov.String()})
+	case "enable":
+		prov := e.Actors[1+int(n(0).Int64())%2]
+		return "SvOther", e.Deliver(&servicetypes.MsgEnableServiceBinding{ServiceName: svName, Provider: prov.String(),
+			Deposit: sdk.NewCoins(sdk.NewCoin("stake", n(1))), Owner: prov.String()})
+	case "refund":
+		prov := e.Actors[1+int(n(0).Int64())%2]
+		return "SvOther", e.Deliver(&servicetypes.MsgRefundServiceDeposit{ServiceName: svName, Provider: prov.String(), Owner: prov.String()})
+	case "withdraw":
+		prov := e.Actors[1+int(n(0).Int64())%2]
+		return "SvOther", e.Deliver(&servicetypes.MsgWithdrawEarnedFees{Owner: prov.String(), Provider: prov.String()})
+	case "update_ctx", "pause", "start", "kill":
+		if len(m.ctxs[e]) == 0 {
+			return "SvOther", lib.Outcome{Kind: "rej", Err: "no request context yet"}
+		}
+		id := m.ctxs[e][len(m.ctxs[e])-1].String()
+		cons := e.Actors[3].String()
+		switch st.K {
+		case "update_ctx":
+			return "SvOther", e.Deliver(&servicetypes.MsgUpdateRequestContext{RequestContextId: id, Consumer: cons,
+				ServiceFeeCap: sdk.NewCoins(sdk.NewCoin("stake", n(0))), Timeout: n(1).Int64()})
+		case "pause":
+			return "SvOther", e.Deliver(&servicetypes.MsgPauseRequestContext{RequestContextId: id, Consumer: cons})
+		case "start":
+			return "SvOther", e.Deliver(&servicetypes.MsgStartRequestContext{RequestContextId: id, Consumer: cons})
+		default:
+			return "SvOther", e.Deliver(&servicetypes.MsgKillRequestContext{RequestContextId: id, Consumer: cons})
+		}
 	case "block":
 		var out lib.Outcome
 		var deps []string
@@ -328,7 +363,28 @@ func genSVat(r *lib.Rand, h *History, sweep int) {
 	}
 	nn := 4 + r.Intn(6)
 	for i := 0; i < nn; i++ {
-		switch r.Weighted(3, 3, 4, 1) {
+		switch r.Weighted(3, 3, 4, 1, 3) {
+		case 4: // messages whose parameter use is not modelled: only the abort clause applies
+			switch r.Intn(9) {
+			case 0:
+				h.Steps = append(h.Steps, Step{"update_binding", []string{amt(0, 1), amt(1, 100000), amt(0, 120)}})
+			case 1:
+				h.Steps = append(h.Steps, Step{"disable", []string{amt(0, 1)}})
+			case 2:
+				h.Steps = append(h.Steps, Step{"enable", []string{amt(0, 1), amt(1, 100000)}})
+			case 3:
+				h.Steps = append(h.Steps, Step{"refund", []string{amt(0, 1)}})
+			case 4:
+				h.Steps = append(h.Steps, Step{"withdraw", []string{amt(0, 1)}})
+			case 5:
+				h.Steps = append(h.Steps, Step{"update_ctx", []string{amt(40, 300), amt(0, 120)}})
+			case 6:
+				h.Steps = append(h.Steps, Step{"pause", nil})
+			case 7:
+				h.Steps = append(h.Steps, Step{"start", nil})
+			case 8:
+				h.Steps = append(h.Steps, Step{"kill", nil})
+			}
 		case 0:
 			h.Steps = append(h.Steps, Step{"call", []string{amt(1, 3), amt(40, 200), amt(5, 8)}})
 		case 1:
